@@ -226,6 +226,18 @@ impl FileLoader {
         let make_err = |kind| ExternalDataError::new(file_path, kind);
         let make_io_err = |err| ExternalDataError::from_io_error(file_path, err);
 
+        // Check that the requested range lies within the file before
+        // allocating a buffer for it, so that an out-of-range offset or length
+        // is reported as an error instead of attempting a huge allocation.
+        let file_len = file.metadata().map_err(make_io_err)?.len();
+        let end_offset = location.offset.saturating_add(location.length);
+        if end_offset > file_len {
+            return Err(make_err(ExternalDataErrorKind::TooShort {
+                required_len: end_offset as usize,
+                actual_len: file_len as usize,
+            }));
+        }
+
         file.seek(SeekFrom::Start(location.offset))
             .map_err(make_io_err)?;
 
